@@ -79,7 +79,10 @@ def judge_object(c, rng, fint, kT, k0_exact, size, wmask, t, label, ndir=6, bloc
         D, S = stencil(fint, cvec, dc)
         got = KT @ dc
         Sg = np.abs(KT) @ np.abs(dc)
-        den = S + Sg + 1e-9 * (S + Sg).max() + 1e-300
+        # rows that vanish by structure (in-plane rows of a bending-only state, a quiet component) carry the round-off of the
+        # products they are summed from: 1e-6 of sum_j |K0_ij|(|c_j| + 2|dc_j|) and of the largest row enter the scale
+        lin = 1e-6 * (np.abs(k0_exact) @ (np.abs(cvec) + 2 * np.abs(dc)))
+        den = S + Sg + lin; den = den + 1e-5 * den.max() + 1e-300
         c.judge(label + 'kT(c)*dc equals the derivative of fint along dc', float((np.abs(got - D) / den).max()), TOL,
                 data={'direction': k})
         if k == 1:
@@ -89,7 +92,7 @@ def judge_object(c, rng, fint, kT, k0_exact, size, wmask, t, label, ndir=6, bloc
     D0, S0 = stencil(fint, np.zeros(size), cvec)
     ref = k0_exact @ cvec
     Sr = np.abs(k0_exact) @ np.abs(cvec)
-    den = S0 + Sr + 1e-9 * (S0 + Sr).max() + 1e-300
+    den = S0 + Sr; den = den + 1e-5 * den.max() + 1e-300       # absolute allowance 1e-14 of the largest row (~50 eps)
     c.judge(label + 'fint reduces to K0*c for infinitesimal states', float((np.abs(D0 - ref) / den).max()), TOL)
     KT0 = kT(np.zeros(size))
     sc0 = np.abs(k0_exact) + 1e-6 * np.abs(k0_exact).max() + 1e-300
